@@ -28,6 +28,15 @@ def gen(rng, tier):
     for n, mults, D in (allp if tier == "thorough" else rng.sample(allp, 160)):
         G = common.mk_graph(n, [(i, i + 1, mults[i]) for i in range(n - 1)], rng)
         out.append({"G": G, "D": list(D), "band": "path", "fam": "exhaustive" if tier == "thorough" else "path", "pool": "raise", "s": rng.randrange(1 << 30)})
+    # bottlenecks: an edge bundle thicker than the number of vertices next to a thin edge, chips on one side and debt on the other (many firing rounds
+    # of the same set are needed before anything reaches the sink)
+    for _ in range(60 if tier == "quick" else 600):
+        n = rng.choice([3, 3, 4]); mults = [rng.choice([1, 1, 4, 5, 7]) for _ in range(n - 1)]
+        G = common.mk_graph(n, [(i, i + 1, mults[i]) for i in range(n - 1)], rng)
+        D = [rng.randint(-3, 1) if i == 0 else rng.randint(0, 2) if i < n - 1 else rng.randint(2, 7) for i in range(n)]
+        if rng.random() < 0.5: D.reverse()
+        if sum(D) > 7: continue
+        out.append({"G": G, "D": D, "band": "bottleneck", "fam": "path", "pool": "raise", "s": rng.randrange(1 << 30)})
     return out
 def impl(c):
     import chipfiring.CFRank as R
